@@ -386,6 +386,17 @@ impl Compile for Number {
     }
 }
 
+/// An integer literal without the `B` prefix is an `int` when it fits in 32 bits and a
+/// `bigint` otherwise. This is decided once, here, so that the type checker, the constant
+/// folder and the code generator all see the same kind.
+fn int_or_bigint(value: i128, decimal: String) -> Number {
+    if i32::try_from(value).is_ok() {
+        Number::Integer(decimal)
+    } else {
+        Number::BigInt(decimal)
+    }
+}
+
 pub fn number_from_string(string: &str, rule: Rule) -> Result<Number> {
     let as_str: String = string.chars().filter(|x| x != &'_').collect();
 
@@ -399,11 +410,11 @@ pub fn number_from_string(string: &str, rule: Rule) -> Result<Number> {
                 Number::BigInt(no_prefix.to_owned())
             }
         }
-        Rule::integer => Number::Integer(as_str),
+        Rule::integer => int_or_bigint(as_str.parse()?, as_str),
         Rule::hex_int => {
-            let as_hex = i128::from_str_radix(&as_str[2..], 16)?.to_string();
+            let as_hex = i128::from_str_radix(&as_str[2..], 16)?;
 
-            Number::Integer(as_hex)
+            int_or_bigint(as_hex, as_hex.to_string())
         }
         Rule::float => {
             if let Some(float_of_int) = as_str.strip_suffix(['F', 'f']) {
